@@ -280,6 +280,7 @@ class Actor:
         self.last_site = "start"
         self.preempted_inside = 0
         self.thread_ident = None
+        self.returned = []
         self.gen_asts = {}
         self.blocked_on = None
         self.vfile = None
@@ -744,8 +745,12 @@ class OpRunner:
             self.a.keep.append(ast)
         return out, ast, form
 
-    def _share_check(self, form, res):
+    def _share_check(self, form, res, ast=None):
         a = self.a
+        if ast is not None:
+            # remember what was handed out, to see at the end of the script whether a
+            # later call changed it (shared mutable parts that are not nodes)
+            a.returned.append((len(a.results), ast, digest(form.text)))
         shared = form.ids & a.node_ids
         if shared:
             res["shared_nodes"] = len(shared)
@@ -770,7 +775,7 @@ class OpRunner:
         out, ast, form = self._parse_outcome(parser, text, filename, keep=True)
         res["out"] = out
         if form is not None:
-            self._share_check(form, res)
+            self._share_check(form, res, ast)
             self._leak_info(form, res)
         try:
             res["post"] = {
@@ -1214,6 +1219,14 @@ def _actor_main(world, actor):
                 gc.collect()
             if r.get("hang"):
                 break
+        # were ASTs returned earlier modified by later calls?
+        for (opi, ast, d0) in actor.returned:
+            try:
+                d1 = digest(canon.ast_form(ast, world.pyc.Node).text)
+            except Exception:
+                continue
+            if d1 != d0 and opi < len(actor.results):
+                actor.results[opi]["mutated_later"] = True
     except BaseException as e:  # harness problem; reported by execute()
         import traceback
 
